@@ -162,8 +162,8 @@ Print Assumptions C12_stream_sps_pps.
 
 (* ... and a slice NAL after them (header byte with nal_unit_type 1 or 5, any slice data d ending in the rbsp stop bit): in
    any push partition the handler reports the three parses of the three structures - the slice header read against the
-   context the two parameter sets left - and the context holds both (C06 joins the composition).  wf_slice is inhabited by
-   C06_ex, wf_sps / wf_pps by C12_stream_ex. *)
+   context the two parameter sets left - and the context holds both (C06 joins the composition).  every hypothesis is met by
+   C12_stream_slice_ex below. *)
 Theorem C12_stream_sps_pps_slice : forall x lists k1 p plists k2 hdr pp sp h ab em d k3 n1 n2 n3 t cs ctx0 pre,
   let c1 := put_seq_param_set ctx0 x in
   let c2 := put_pic_param_set c1 p in
@@ -223,6 +223,59 @@ Proof.
     + repeat constructor; lia.
     + repeat constructor; lia.
   - split; (split; [discriminate|split; [vm_compute; discriminate|vm_compute; reflexivity]]).
+Qed.
+
+(* non-vacuity of C12_stream_sps_pps_slice: the SPS, PPS and SP slice header of C06_ex (weight table, list modifications,
+   adaptive marking), 3 / 7 / 0 trailing zero bits and three bits of slice data meet every hypothesis *)
+Definition C12_sl_sp := mk_sps 100 0 40 0 (mk_chroma_info YUV420 false 0 0 false None) 3 (PocTypeZero 2) 4 false 19 8 (Fields false) true None None.
+Definition C12_sl_pp := mk_pps 4 0 true true None 0 0 true 0 0%Z (-3)%Z 0%Z true false true None.
+Definition C12_sl_h :=
+  mk_sh 17 (mk_st FamSP true) None 77 FpBottom None (Some (PlFrame 33)) (Some 1) None (Some (NraP 1))
+        (RplP [ModSubtract 2; ModLongTermRef 0]) (Some (mk_pwt 5 (Some 4) [Some (mk_pw 3 (-1)); None] [[mk_pw 1 1; mk_pw (-2) 0]; []]))
+        (Some (DrAdaptive [MmShortTermUnused 1; MmAllUnused; MmShortTermUsedForLongTerm 2 3])) (Some 2) (-4)%Z (Some true) (Some 30) 2.
+Example C12_stream_slice_ex :
+  let c1 := put_seq_param_set ctx_empty C12_sl_sp in
+  let c2 := put_pic_param_set c1 C12_sl_pp in
+  let d := [true; false; true] in
+  wf_sps C12_sl_sp None /\ ctx_ok ctx_empty /\ wf_pps c1 C12_sl_pp None /\ wf_slice c2 65 C12_sl_pp C12_sl_sp C12_sl_h (3, -2)%Z /\
+  (8 | N.of_nat (length (enc_sps C12_sl_sp None ++ trailing_bits 3))) /\
+  (8 | N.of_nat (length (enc_pps C12_sl_pp None ++ trailing_bits 7))) /\
+  (8 | N.of_nat (length (enc_slice_header 65 C12_sl_pp C12_sl_sp C12_sl_h (3, -2)%Z (true, false) ++ d ++ trailing_bits 0))) /\
+  nal_header_new 65 = Some 65 /\ nal_unit_type_id 65 = 1 /\ any_one (List.tl (d ++ trailing_bits 0)) = true.
+Proof.
+  cbv zeta.
+  split; [|split; [|split; [|split; [|split; [exists 9; vm_compute; reflexivity|split; [exists 4; vm_compute; reflexivity|
+    split; [exists 19; vm_compute; reflexivity|split; [reflexivity|split; reflexivity]]]]]]]].
+  - unfold wf_sps, u32v, C12_sl_sp. cbn -[N.lt N.le Z.le Z.lt N.pow]. repeat split; try lia; try reflexivity; try discriminate.
+  - split.
+    + intros id sp H. unfold sps_by_id, ctx_empty in H. cbn in H. unfold Context.map_get in H. destruct (N.to_nat id); discriminate.
+    + intros id p H. unfold pps_by_id, ctx_empty in H. cbn in H. unfold Context.map_get in H. destruct (N.to_nat id); discriminate.
+  - unfold wf_pps, C12_sl_pp, C12_sl_sp.
+    cbn [pic_parameter_set_id pps_seq_parameter_set_id slice_groups num_ref_idx_l0_default_active_minus1
+      num_ref_idx_l1_default_active_minus1 weighted_bipred_idc pic_init_qp_minus26 pic_init_qs_minus26 chroma_qp_index_offset extension].
+    split; [lia|]. split; [lia|]. eexists. split; [vm_compute; reflexivity|].
+    cbn [chroma_info_ bit_depth_luma_minus8 wf_slice_group wf_pps_ext transform_8x8_mode_flag pic_scaling_matrix_
+         second_chroma_qp_index_offset psm4x4 psm8x8 length].
+    repeat match goal with |- _ /\ _ => apply conj end; try lia; try (vm_compute; reflexivity); try discriminate.
+  - unfold wf_slice, C12_sl_h, C12_sl_pp, C12_sl_sp. cbv zeta.
+    repeat match goal with |- _ /\ _ => apply conj end;
+      cbn -[N.lt N.le Z.le Z.lt N.pow]; try reflexivity; try discriminate; try (unfold u32v; lia).
+    + exists 33. split; [reflexivity|]. change (2 ^ (2 + 4)) with 64. lia.
+    + exists 1. split; [reflexivity|unfold u32v; lia].
+    + repeat constructor; cbn [mod_val]; unfold u32v; lia.
+    + split; [reflexivity|]. eexists. split; [reflexivity|].
+      unfold wf_pwt, wf_pw, u32v, s32v. cbn -[N.lt N.le Z.le Z.lt].
+      repeat match goal with |- _ /\ _ => apply conj end; try lia; try reflexivity.
+      * exists 4. split; [reflexivity|lia].
+      * constructor; [right; exists (mk_pw 1 1), (mk_pw (-2) 0); cbn -[Z.le]; repeat split; lia|].
+        constructor; [left; reflexivity|constructor].
+      * repeat constructor; cbn -[Z.le]; lia.
+    + change (nal_ref_idc 65 =? 0) with false. cbv iota. eexists. split; [reflexivity|].
+      cbn [wf_drm]. split; [discriminate|]. repeat constructor; cbn [wf_mmco]; unfold u32v; lia.
+    + exists 2. split; [reflexivity|unfold u32v; lia].
+    + exists true. reflexivity.
+    + exists 30. split; [reflexivity|lia].
+    + split; [lia|]. intros _. unfold s32v. cbn [fst snd]. lia.
 Qed.
 
 (* non-vacuity: two units, a 4-byte and a 3-byte start code with extra leading zeros, 3 trailing zeros,
